@@ -274,6 +274,38 @@ def controls(ctx, gmap, recs, flags, tag):
     return [i not in failed for i in range(len(cs))]
 
 
+# ------------------------------------------------------- settings decision table
+def settings_vectors(ctx):
+    """specs/ClientSettings.tla: every (global value x own value x opt-out switch)
+    combination of the five settings, replayed into the real code.  Returns
+    (number of vectors, reproduced bad rows)."""
+    r = ctx.tlc("ClientSettings", "ClientSettings.cfg", workers=2, timeout=300, heap="2g")
+    vectors = r["vectors"]
+    if len(vectors) != 16 * 16 * 2 * 2 * 2 * 3:
+        raise vlib.Inconclusive("ClientSettings printed %d vectors" % len(vectors))
+
+    def go(vs, tag):
+        vin, vout = ctx.path("c04_set_in_%s.ndjson" % tag), ctx.path("c04_set_out_%s.ndjson" % tag)
+        vlib.write_ndjson(vin, vs)
+        rc, out = ctx.go_test(PKG, FILES, "^TestZZVerifC04Settings$", env={"VERIF_IN": vin, "VERIF_OUT": vout})
+        rows = vlib.read_ndjson(vout)
+        summ = [x for x in rows if x.get("t") == "summary"]
+        if rc != 0 or not summ or summ[0]["n"] != len(vs):
+            raise vlib.Inconclusive("C04 settings harness did not complete:\n" + out[-3000:])
+        return [x for x in rows if x.get("t") == "bad"]
+
+    bad = go(vectors, "all")
+    if not bad:
+        return vectors, []
+    # a second time, only the offending vectors, each in a fresh storage
+    sig = lambda b: json.dumps([b["vec"], b["req"]], sort_keys=True)
+    again = {sig(b): b for b in go([b["vec"] for b in bad[:40]], "again")}
+    rep = [again[sig(b)] for b in bad[:40] if sig(b) in again]
+    if len(rep) < len(bad[:40]):
+        raise vlib.Inconclusive("%d settings disagreement(s) did not reproduce" % (len(bad[:40]) - len(rep)))
+    return vectors, rep
+
+
 # ---------------------------------------------------------------- direction B
 def trace_validate(ctx, env=None, tag="b"):
     tout = ctx.path("c04_trace_%s.ndjson" % tag)
@@ -410,6 +442,12 @@ def run(ctx):
         key = PROBES[flag][1] if agrees else None
         ctx.disagreement(key, rec, "%s (%s spelling): %s after %s" % (b["u"], flag, rec["what"], rec["concrete"]))
 
+    # --- settings decision table (pure vectors)
+    svecs, sbad = settings_vectors(ctx)
+    for b in sbad[:8]:
+        b["kind"] = "settings"
+        ctx.disagreement(classify(b), b, "settings: %s for the %s request; %s" % (b["what"], b["req"], b["concrete"]))
+
     # --- direction B
     trows, tbad, tskipped = trace_validate(ctx)
     ntraces = sum(1 for r in trows if r["op"] == "reset")
@@ -437,12 +475,13 @@ def run(ctx):
     cov = {
         "traces_validated_against_impl": len(chunks) + ntraces,
         "tour_segments": len(chunks), "edges_replayed": summ["steps"],
+        "settings_vectors_replayed": len(svecs), "settings_vectors_disagreeing": len(sbad),
         "spelling_probe_segments": len(probe_chunks), "spelling_probe_steps": psumm["steps"],
         "spelling_probe_disagreements": len(pbads),
         "edges_in_universe": sum(g.nedges for g in graphs) if not ctx.quick else None,
         "states_in_universes": {g.name: len(g.keys) for g in graphs},
         "edges_by_op_reply": {"%d/%d" % k: v for k, v in sorted(by_kind.items())},
-        "evaluations": summ["lookups"] + sum(len(r["q"]) for r in trows),
+        "evaluations": summ["lookups"] + 2 * len(svecs) + sum(len(r["q"]) for r in trows),
         "distinct_nontrivial": nontrivial,
         "rule": "one evaluation = one lookup (Find / FindByName / RangeByName / effective settings) compared with the spec; "
                 "distinct_nontrivial = distinct labelled edges (state, operation, arguments) replayed that change the registry "
@@ -459,9 +498,24 @@ def run(ctx):
         "single goroutine per Storage (concurrency is C05)"])
 
 
+def settings_vectors_one(ctx, vec):
+    vin, vout = ctx.path("c04_set_in_replay.ndjson"), ctx.path("c04_set_out_replay.ndjson")
+    vlib.write_ndjson(vin, [vec])
+    rc, out = ctx.go_test(PKG, FILES, "^TestZZVerifC04Settings$", env={"VERIF_IN": vin, "VERIF_OUT": vout})
+    rows = vlib.read_ndjson(vout)
+    if rc != 0 or not [x for x in rows if x.get("t") == "summary"]:
+        raise vlib.Inconclusive("C04 settings harness did not complete:\n" + out[-3000:])
+    return rows, [x for x in rows if x.get("t") == "bad"]
+
+
 def replay(ctx, path):
     rec = json.load(open(path))["record"]
     ctx.seed = rec.get("seed", ctx.seed)
+    if rec.get("kind") == "settings":
+        _, bad = settings_vectors_one(ctx, rec["vec"])
+        print(json.dumps({"vector": rec["vec"], "expected": rec["vec"][rec["req"]],
+                          "observed": [b["got"] for b in bad] or "agrees with the spec"}, indent=1))
+        return 1 if bad else 0
     if "chunk_keys" in rec:
         ck = rec["chunk_keys"]
         res = {}
